@@ -1,0 +1,117 @@
+//go:build verif
+
+// Verification hooks (build tag verif only): read-only snapshots of the aggregation map and
+// the expiry queue, and a direct entry to addOrUpdateRecordInMap. Nothing here changes the
+// behaviour of the package; without the tag the file is not compiled.
+
+package intermediate
+
+import (
+	"fmt"
+	"time"
+
+	"github.com/vmware/go-ipfix/pkg/entities"
+)
+
+// VerifSlot is one slot of the expiry queue's backing slice.
+type VerifSlot struct {
+	Key      FlowKey
+	Active   time.Time
+	Inactive time.Time
+	Index    int
+}
+
+// VerifFlow is one entry of flowKeyRecordMap.
+type VerifFlow struct {
+	Key         FlowKey
+	ReadyToSend bool
+	Retries     int
+	Filled      bool
+	IsIPv4      bool
+	// ItemIndex is the index field of the flow's queue item (-1 detached, -2 no item).
+	ItemIndex int
+	Record    entities.Record
+}
+
+// VerifSnap is a snapshot of the map and of the queue slice (in slice order).
+type VerifSnap struct {
+	Flows []VerifFlow
+	Queue []VerifSlot
+	// HeapProblem is "" when the slice is a consistent heap: every slot's index field is its
+	// position, no child sorts before its parent (Less), every slot's item points to the flow
+	// stored in the map under its key and that flow points back to the item.
+	HeapProblem string
+}
+
+// VerifSnapshot takes the process lock and snapshots.
+func (a *AggregationProcess) VerifSnapshot() VerifSnap {
+	a.mutex.Lock()
+	defer a.mutex.Unlock()
+	return a.VerifSnapshotLocked()
+}
+
+// VerifSnapshotLocked snapshots without taking the lock (for use inside expiry callbacks,
+// which run with the lock held).
+func (a *AggregationProcess) VerifSnapshotLocked() VerifSnap {
+	var s VerifSnap
+	for k, f := range a.flowKeyRecordMap {
+		vf := VerifFlow{Key: k, ItemIndex: -2}
+		if f != nil {
+			vf.ReadyToSend = f.ReadyToSend
+			vf.Retries = f.waitForReadyToSendRetries
+			vf.Filled = f.areCorrelatedFieldsFilled
+			vf.IsIPv4 = f.isIPv4
+			vf.Record = f.Record
+			if f.PriorityQueueItem != nil {
+				vf.ItemIndex = f.PriorityQueueItem.index
+			}
+		}
+		s.Flows = append(s.Flows, vf)
+	}
+	pq := a.expirePriorityQueue
+	problem := func(format string, args ...interface{}) {
+		if s.HeapProblem == "" {
+			s.HeapProblem = fmt.Sprintf(format, args...)
+		}
+	}
+	for i, it := range pq {
+		if it == nil {
+			problem("slot %d is nil", i)
+			s.Queue = append(s.Queue, VerifSlot{Index: -3})
+			continue
+		}
+		sl := VerifSlot{Active: it.activeExpireTime, Inactive: it.inactiveExpireTime, Index: it.index}
+		if it.flowKey != nil {
+			sl.Key = *it.flowKey
+		} else {
+			problem("slot %d has no flow key", i)
+		}
+		s.Queue = append(s.Queue, sl)
+		if it.index != i {
+			problem("slot %d has index %d", i, it.index)
+		}
+		if i > 0 && pq.Less(i, (i-1)/2) {
+			problem("slot %d sorts before its parent %d", i, (i-1)/2)
+		}
+		if it.flowKey != nil {
+			if f, ok := a.flowKeyRecordMap[*it.flowKey]; ok {
+				if it.flowRecord != f {
+					problem("slot %d: item's flow record is not the one in the map", i)
+				} else if f.PriorityQueueItem != it {
+					problem("slot %d: flow record does not point back to its item", i)
+				}
+			}
+		}
+	}
+	return s
+}
+
+// VerifAddRecord feeds one data record to the aggregation map exactly as
+// AggregateMsgByFlowKey does for a valid record.
+func (a *AggregationProcess) VerifAddRecord(record entities.Record) error {
+	flowKey, isIPv4, err := getFlowKeyFromRecord(record)
+	if err != nil {
+		return err
+	}
+	return a.addOrUpdateRecordInMap(flowKey, record, isIPv4)
+}
